@@ -66,6 +66,16 @@ def route_dependent(troot, roots):
     return dc
 
 
+def _same_bytes(a, b):
+    try:
+        if os.path.getsize(a) != os.path.getsize(b):
+            return False
+        with open(a, "rb") as fa, open(b, "rb") as fb:
+            return fa.read() == fb.read()
+    except OSError:
+        return False
+
+
 def explained_by_route(rep_a, rep_b, dc):
     """True iff two reports differ only in route-dependent files and in what follows from their presence: per
     content class the other members agree, or the class is absent from one report and has a route-dependent member."""
@@ -80,7 +90,9 @@ def explained_by_route(rep_a, rep_b, dc):
         differs = True
         union = (ma or set()) | (mb or set())
         if not (union & dc):
-            return False
+            # under --unique / --rf-under a class shows up because a route-dependent member was *not* seen
+            if not ((ma is None or mb is None) and any(_same_bytes(d_, next(iter(union))) for d_ in dc)):
+                return False
         if ma is not None and mb is not None and (ma - dc) != (mb - dc):
             return False
     return differs
@@ -271,11 +283,31 @@ STD_CRATES = {"alloc", "core", "std", "__rustc", "rustc_std_workspace_core", "ha
 
 
 def frame_owner(frame):
-    """Crate that owns a frame: the first crate name in its symbol that is not std/alloc/core
-    (so core::ptr::drop_in_place::<sled::X> belongs to sled, <fclones::a::B>::f to fclones)."""
-    for m in CRATE.finditer(frame):
-        if m.group(1) not in STD_CRATES:
-            return m.group(1)
+    """Crate in which the function of a stack frame is defined, or None for std / compiler glue.
+
+    `<T as Trait>::f` and `<T>::f` belong to the crate of the Self type T, a plain path to its first segment.
+    Generic std code (`<alloc::raw_vec::RawVec<X> as Drop>::drop`, `core::ptr::drop_in_place::<X>`) is owned by
+    std whatever its type arguments say: release builds fold identical instantiations, so the X in such a symbol
+    may name any type of the same layout (a free inside sled's page cache has been seen under the name
+    RawVec<fclones::device::DiskDevice>). The owner of an access is then the next frame outwards that has one."""
+    f = frame.strip()
+    if f.startswith("<"):
+        depth, end = 0, None
+        for k, ch in enumerate(f):
+            if ch == "<":
+                depth += 1
+            elif ch == ">":
+                depth -= 1
+                if depth == 0:
+                    end = k
+                    break
+        inner = f[1:end] if end else f[1:]
+        self_ty = inner.split(" as ")[0].lstrip("&").replace("dyn ", "").replace("mut ", "").strip()
+        m = CRATE.search(self_ty + "::")
+    else:
+        m = CRATE.search(f)
+    if m and m.group(1) not in STD_CRATES:
+        return m.group(1)
     return None
 
 
